@@ -2,6 +2,7 @@ package c17
 
 import (
 	"encoding/json"
+	"regexp"
 	"strconv"
 	"strings"
 
@@ -13,6 +14,8 @@ import (
 // recognises one root cause by decoder + panic message + panic site (or, for
 // the allocation findings, by the input shape that explains the allocation),
 // so that any other violation still fails the check.
+
+var refinementSiteRe = regexp.MustCompile(`(^| < )cty\.\(\*RefinementBuilder\)\.\w+ < cty/msgpack\.unmarshalUnknownValue < `)
 
 func inputOf(raw json.RawMessage) (Input, []byte, bool) {
 	var in Input
@@ -193,6 +196,14 @@ func init() {
 	// empty object value whatever tuple / object type was requested.
 	regKnown("c17MsgpackEmptyStruct", func(_ string, _ json.RawMessage, f *facet.Failure) bool {
 		return f != nil && f.Kind == "nonconforming" && f.Data["decoder"] == DMsgpackValue && f.Data["shape"] == "empty-struct-for-nonempty"
+	})
+
+	// msgpack.unmarshalUnknownValue replays the refinements found in an
+	// extension body through cty.RefinementBuilder, whose methods panic on
+	// inconsistent or inapplicable refinements (contradictory bounds, null +
+	// other refinements, ...).
+	regKnown("c17MsgpackRefinementPanic", func(_ string, _ json.RawMessage, f *facet.Failure) bool {
+		return f != nil && f.Kind == "panic" && refinementSiteRe.MatchString(f.Data["site"])
 	})
 
 	// cty.SetVal unmarks every member deeply, which rebuilds nested sets through
